@@ -70,6 +70,10 @@ class Check:
         os.makedirs(base, exist_ok=True)
         self.work = tempfile.mkdtemp(prefix="verif.%s." % pid, dir=base)
         atexit.register(lambda: shutil.rmtree(self.work, ignore_errors=True))
+        # llgo, clang and go leave temporary objects behind: keep them inside the work directory, which is removed at exit
+        tmpd = os.path.join(self.work, "tmp")
+        os.makedirs(tmpd, exist_ok=True)
+        os.environ["TMPDIR"] = tmpd
         self.violations = []      # dicts: key, what, replay, found
         self.known_hits = []      # (key, what)
         self.obligations = []     # (name, ok, detail)
